@@ -14,9 +14,9 @@ import sys
 HERE = os.path.dirname(os.path.abspath(__file__))
 VERIF = os.path.dirname(HERE)
 LEAN = os.path.join(VERIF, "lean")
-SCRATCH = "/tmp/r_translator"
+SCRATCH = os.environ.get("TRANSLATOR_SCRATCH", "/tmp/r_translator")
 PROPS = ["VelaVerif.Props.C19Src", "VelaVerif.Props.C04Src", "VelaVerif.Props.C06Src", "VelaVerif.Props.C09Src", "VelaVerif.Props.C10Src",
-         "VelaVerif.Props.C15Src", "VelaVerif.Props.C17Src"]
+         "VelaVerif.Props.C15Src", "VelaVerif.Props.C17Src", "VelaVerif.Props.C02Src"]
 
 # name -> (kind, file, old, new)
 EDITS = {
@@ -48,7 +48,52 @@ EDITS = {
         "            if range2 is not None and ranges_overlap(range1, range2):", "            if ranges_overlap(range1, range2):"),
     "S13-area-ranges-tile1-condition": ("semantic", "ethosu/vela/register_command_stream_util.py",
         "    if x1 >= width_0 and y0 < height_1:", "    if x1 > width_0 and y0 < height_1:"),
+    # second round (design.d/Translator.md section 8): graph_optimiser_util, shape4d, tensor, calc_blockdep
+    "S14-needed_total_padding-floor": ("semantic", "ethosu/vela/graph_optimiser_util.py",
+        "        return max(filter_size - stride, 0)", "        return max(filter_size - stride, 1)"),
+    "S15-calc_explicit_padding-min-output": ("semantic", "ethosu/vela/graph_optimiser_util.py",
+        "    output_size = max((padded_size - filter_size) // stride + 1, 1)", "    output_size = max((padded_size - filter_size) // stride + 1, 0)"),
+    "S16-shape4d-clip_len-origin": ("semantic", "ethosu/vela/shape4d.py",
+        "        return min(pos + length, size) - pos", "        return min(pos + length, size)"),
+    "S17-shape4d-round_up-wrong-axis": ("semantic", "ethosu/vela/shape4d.py",
+        "            round_up(lhs.batch, rhs.batch),", "            round_up(lhs.batch, rhs.height),"),
+    "S18-shape4d-div_round_up-not-divided": ("semantic", "ethosu/vela/shape4d.py",
+        "            round_up_divide(self.depth, rhs.depth),", "            round_up(self.depth, rhs.depth),"),
+    "S19-get_strides-nhwc-order": ("semantic", "ethosu/vela/tensor.py",
+        "            stride_order = [4, 1, 3, 2, 0]", "            stride_order = [4, 1, 2, 3, 0]"),
+    "S20-get_strides-brick-stride": ("semantic", "ethosu/vela/tensor.py",
+        "            strides[3] = 16 * stride  # STRIDE_X", "            strides[3] = 8 * stride  # STRIDE_X"),
+    "S21-storage_size_for_shape-sum": ("semantic", "ethosu/vela/tensor.py",
+        "        elems = elems if elems else 0\n        raw_size = elems * self.element_size()",
+        "        elems = elems if elems else 0\n        raw_size = elems + self.element_size()"),
+    "S22-get_full_shape-rank2": ("semantic", "ethosu/vela/tensor.py",
+        "            return [self.shape[0], 1, 1, self.shape[1]]", "            return [1, self.shape[0], 1, self.shape[1]]"),
+    "S23-shape_num_elements-start": ("semantic", "ethosu/vela/tensor.py",
+        "    elems = 1\n    if shp is None:", "    elems = 0\n    if shp is None:"),
+    "S24-calc_blockdep-max-instead-of-min": ("semantic", "ethosu/vela/register_command_stream_util.py",
+        "        blockdep = min(blockdep, elapsed_jobs + outstanding_jobs)", "        blockdep = max(blockdep, elapsed_jobs + outstanding_jobs)"),
+    "S25-calc_blockdep-both-overlap-or": ("semantic", "ethosu/vela/register_command_stream_util.py",
+        "    if ifm_overlaps and ifm2_overlaps:", "    if ifm_overlaps or ifm2_overlaps:"),
+    "S26-calc_blockdep-missing-in-area-continues": ("semantic", "ethosu/vela/register_command_stream_util.py",
+        "        if in_area is None:\n            break", "        if in_area is None:\n            continue"),
+    "S27-calc_blockdep-intersection-does-not-stop": ("semantic", "ethosu/vela/register_command_stream_util.py",
+        "            if intersects(overlapping_fm, in_area[0], in_area[1], prev_op.ofm, out_area[0], out_area[1]):\n                break",
+        "            if intersects(overlapping_fm, in_area[0], in_area[1], prev_op.ofm, out_area[0], out_area[1]):\n                continue"),
+    "S28-round_up_to_int-plus-one": ("semantic", "ethosu/vela/numeric_util.py",
+        "    return int(math.ceil(v))", "    return int(math.ceil(v)) + 1"),
     # harmless rewrites
+    "H8-needed_total_padding-max-operands-swapped": ("harmless", "ethosu/vela/graph_optimiser_util.py",
+        "        return max(filter_size - stride, 0)", "        return max(0, filter_size - stride)"),
+    "H9-calc_explicit_padding-rename-local": ("harmless", "ethosu/vela/graph_optimiser_util.py", "padded_size", "total_size"),
+    "H10-shape4d-clip-rename-locals": ("harmless", "ethosu/vela/shape4d.py",
+        "        n = Shape4D._clip_len(offset.batch, sub_shape.batch, self.batch)\n", "        nn = Shape4D._clip_len(offset.batch, sub_shape.batch, self.batch)\n        n = nn\n"),
+    "H11-get_strides-rename-local": ("harmless", "ethosu/vela/tensor.py", "stride_order", "order_of_strides"),
+    "H12-get_full_shape-membership-order": ("harmless", "ethosu/vela/tensor.py", "        if d in (1, 3):", "        if d in (3, 1):"),
+    "H13-calc_blockdep-rename-local": ("harmless", "ethosu/vela/register_command_stream_util.py", "outstanding_jobs", "pending_jobs"),
+    "H14-calc_blockdep-augassign-spelled-out": ("harmless", "ethosu/vela/register_command_stream_util.py",
+        "        elapsed_jobs += in_area[2]", "        elapsed_jobs = elapsed_jobs + in_area[2]"),
+    "H15-storage_size_for_shape-rename-local": ("harmless", "ethosu/vela/tensor.py", "rounded_size = numeric_util.round_up(numeric_util.round_up_to_int(raw_size), self.alignment)\n        return rounded_size\n\n    def storage_shape_for_sub_purpose",
+        "result_size = numeric_util.round_up(numeric_util.round_up_to_int(raw_size), self.alignment)\n        return result_size\n\n    def storage_shape_for_sub_purpose"),
     "H1-rename-local": ("harmless", "ethosu/vela/fp_math.py", "ab_plus_nudge", "abn"),
     "H2-swap-independent-assignments": ("harmless", "ethosu/vela/fp_math.py",
         "    remainder = x & mask\n    threshold = mask >> 1\n", "    threshold = mask >> 1\n    remainder = x & mask\n"),
